@@ -48,6 +48,11 @@ def gen_world(seed, tier):
     if use_cyc:
         pool["G1"] = {"type": "graph", "v": gc}
     pool["G2"] = {"type": "graph", "v": gen.perturb(rng, gd)}       # a non-conserving weighting (for the flow-correction model)
+    # node-weighted variants of the same graphs (flow_attr_origin="node"); drawn from their own stream
+    rngn = random.Random(H(seed, "c18node"))
+    pool["G3"] = {"type": "graph", "v": gen.node_weighted(rngn, gd)}
+    if use_cyc:
+        pool["G4"] = {"type": "graph", "v": gen.node_weighted(rngn, gc)}
     base_ = [rng.randint(1, 6) for _ in range(rng.randint(2, 3))]
     nums = sorted({sum(b for b in base_ if rng.random() < 0.6) or base_[0] for _ in range(4)})
     pool["nums0"] = {"type": "plain", "v": nums, "total": sum(base_)}
@@ -125,6 +130,8 @@ def gen_world(seed, tier):
             continue
         gname = "G1" if cyc else "G0"
         g = gc if cyc else gd
+        if cyc and cname != "MinErrorFlow" and rngn.random() < 0.3:
+            gname, g = "G0", gd               # the walk models accept any digraph, also an acyclic one
         args = {"G": "@" + gname}
         if cname == "MinErrorFlow":
             if not cyc:
@@ -164,6 +171,12 @@ def gen_world(seed, tier):
             args["solution_weights_superset"] = list(gd["weights"]) + [rng.randint(1, 4)]
         if rng.random() < 0.08:
             args["k"] = 0                       # a constructor that raises (after touching shared state?)
+        if cname not in models.COVER_CLASSES and rngn.random() < (0.5 if cname == "MinFlowDecompCycles" else 0.25):
+            # the node-weighted reading of the same graph (the model expands nodes internally and condenses the routes again)
+            args["G"] = "@G4" if gname == "G1" else "@G3"
+            args["flow_attr_origin"] = "node"
+            for a_ in ("subpath_constraints", "elements_to_ignore", "error_scaling", "solution_weights_superset"):
+                args.pop(a_, None)
         ops.append({"op": "construct", "h": h, "class": cname, "args": args})
         seq = ["solve"] + rng.sample(["get_solution", "get_solution", "get_objective_value", "get_objective_value", "solve", "is_valid_solution"], rng.randint(1, 4))
         if cname.startswith("Min") and rng.random() < 0.3:
@@ -285,6 +298,17 @@ def _summ_solution(cname, sol):
     return None
 
 
+def _objective_of(cname, op_args, m):
+    """The quantity the model minimised.  MinErrorFlow.get_objective_value() is the unscaled sum of corrections; with an
+    error_scaling argument the minimised quantity is the scaled sum, and optimal corrections differ in their unscaled sum
+    (seen: 3.5 vs 3.125 under an alternative optimum) - there the solver objective of the solution is the determined value."""
+    if cname == "MinSetCover":
+        return canon(sum(m.subset_weights[i_] for i_ in m.get_solution()))
+    if cname == "MinErrorFlow" and op_args.get("error_scaling") is not None:
+        return canon(m.get_solution()["objective_value"])
+    return canon(m.get_objective_value()) if hasattr(m, "get_objective_value") else None
+
+
 def _same_obj(cname, args, a, b):
     """MinErrorFlow with few_flow_values_epsilon reports the error of *a* flow within (1+eps) of the optimum:
     two admissible answers (another optimum of the second phase) may differ by that factor."""
@@ -331,9 +355,7 @@ def isolated_eval(payload):
             m.solve()
             res["solved"] = bool(m.is_solved())
             if res["solved"]:
-                res["objective"] = canon(m.get_objective_value()) if hasattr(m, "get_objective_value") else None
-                if op["class"] == "MinSetCover":
-                    res["objective"] = canon(sum(m.subset_weights[i_] for i_ in m.get_solution()))
+                res["objective"] = _objective_of(op["class"], op["args"], m)
                 res["routes"] = _summ_solution(op["class"], m.get_solution())
         except SystemExit:
             res["exc"] = "solve:SystemExit"
@@ -418,7 +440,7 @@ def _execute(spec):
                     sim.history.add("pause", seconds=op["seconds"])
                     continue
                 if k == "construct":
-                    info[h] = {"class": op["class"], "inv0": sim.inv, "exc": None, "solves": [], "sols": [], "objs": [],
+                    info[h] = {"class": op["class"], "inv0": sim.inv, "exc": None, "solves": [], "sols": [], "objs": [], "op_args": op["args"],
                                "args": {k_: v_ for k_, v_ in op["args"].items() if not isinstance(v_, str)}}
                     for a, v in op["args"].items():
                         if isinstance(v, str) and v.startswith("@"):
@@ -443,9 +465,7 @@ def _execute(spec):
                             f0 = injected()
                             ret = m.solve()
                             st = bool(m.is_solved())
-                            ob = (canon(m.get_objective_value()) if hasattr(m, "get_objective_value") else None) if st else None
-                            if st and I["class"] == "MinSetCover":
-                                ob = canon(sum(m.subset_weights[i_] for i_ in m.get_solution()))      # the minimised quantity
+                            ob = _objective_of(I["class"], I["op_args"], m) if st else None      # the minimised quantity
                             nr = _summ_solution(op["class"] if "class" in op else I["class"], m.get_solution()) if st else None
                             I["solves"].append({"solved": st, "objective": ob, "routes": nr, "faulted": injected() > f0, "inv": [a, sim.inv], "returned": None if ret is None else bool(ret)})
                             # a re-solve may legitimately deliver another optimum: getters are compared between solves only
@@ -482,8 +502,13 @@ def _execute(spec):
             if (I["exc"] or None) != (ref.get("exc") if str(ref.get("exc")).startswith("construct") else None):
                 V("result_depends_on_history", cname, {"in_history": I["exc"], "isolated": ref})
             continue
-        first = I["solves"][0] if I["solves"] else None
-        if first is not None and not first.get("faulted"):
+        # every solve() that ran without an injected fault - the first one, and also one that follows a faulted solve of the
+        # same model - must give what the arguments alone determine (the isolated evaluation)
+        reported = False
+        for first in I["solves"]:
+            if reported or first.get("faulted"):
+                continue
+            nv0 = len(vs)
             if "exc" in first:
                 if first["exc"] != ref.get("exc"):
                     V("result_depends_on_history", cname, {"in_history": first, "isolated": ref})
@@ -508,6 +533,7 @@ def _execute(spec):
                         V("result_depends_on_history", cname, {"in_history": first, "isolated": ref})
                     else:
                         counters["solver_not_truthful_discrepancy_dismissed"] = counters.get("solver_not_truthful_discrepancy_dismissed", 0) + 1
+            reported = len(vs) > nv0
         clean = [s for s in I["solves"] if not s.get("faulted") and "exc" not in s]
         for a, b in zip(clean[:-1], clean[1:]):
             if a["solved"] != b["solved"] or not _same_obj(cname, I.get("args", {}), a["objective"], b["objective"]) or a["routes"] != b["routes"] or a.get("returned") != b.get("returned"):
